@@ -597,6 +597,31 @@ theorem density_to_graph_edge_rule_partial (n : Nat) (adj : Adj) (hsym : ∀ i j
 example : Matrix.trace (projOff 3 0 2 * graphStateMat 3 tri * projOff 3 0 2) = (1 / 2 : ℂ) ^ 3 * 4 :=
   (density_to_graph_project_and_remove 3 tri tri_symm (by decide) 0 2 (by decide) (by decide)).1
 
+/-! ### the conversions among the three representations of a graph state, together -/
+
+/-- **every conversion among graph, stabilizer and density-matrix form keeps the graph state** (every n ≥ 1, every simple graph `G`;
+    conversion functions as modelled, density matrices as exact `2ⁿ × 2ⁿ` complex matrices):
+    * g → s and g → dm both denote `|G⟩⟨G|` (`graphStateMat`), hence s → dm of `graph_to_stabilizer(G)` is the matrix g → dm builds;
+    * s → g: `stabilizer_to_graph(validate=True)` on `graph_to_stabilizer(G)` returns `G`;
+    * dm → g: for every pair `i < j` the negativity test of `_density_to_graph_pure` on `|G⟩⟨G|` (the exact value of the quantity the
+      code thresholds) is positive exactly on the edges of `G` — so dm → g returns `G`, and dm → s = g → s ∘ dm → g returns
+      `graph_to_stabilizer(G)`.
+    (What ties this to `QuantumState.convert_representation`: its dispatch table and wrappers are compared per chain by the harness —
+    all 9 ordered pairs and all chains of length 3 — not modelled.) -/
+theorem conversions_preserve_graph_state (n : Nat) (hn : 0 < n) (adj : Adj) (hsym : ∀ i j, i < n → j < n → adj i j = adj j i)
+    (hirr : ∀ i, i < n → adj i i = false) :
+    Hilbert.rho n (graphSTab n adj) = graphStateMat n adj ∧
+    Hilbert.circMat n ((S2G.edgesOf n adj).map fun e => Gate.CZ e.1 e.2) * plusMat n *
+        (Hilbert.circMat n ((S2G.edgesOf n adj).map fun e => Gate.CZ e.1 e.2)).conjTranspose = graphStateMat n adj ∧
+    (∃ g, S2G.stabilizerToGraph (graphSTab n adj) = .ok g ∧ ∀ i j, i < n → j < n → g.f i j = adj i j) ∧
+    (∀ i j, i < j → j < n → ∃ M : Neg.M4,
+      (∀ a b, projectAndRemove n i j (graphStateMat n adj) a b = ((M (idx2 a) (idx2 b) : ℚ) : ℂ)) ∧
+      ((1/10 : ℚ) < Neg.negativityOf (Neg.ptA M).charpoly.roots ↔ adj i j = true)) :=
+  ⟨rho_graphSTab n adj hsym hirr, graph_to_density_mat n adj hsym hirr, (graph_round_trip n hn adj hsym hirr).2,
+   fun i j hij hj => by
+     obtain ⟨M, h1, _, h3⟩ := density_to_graph_edge_rule_partial n adj hsym hirr i j hij hj
+     exact ⟨M, h1, h3⟩⟩
+
 /- Not theorems of this development (kept visible): (1) the density-matrix side beyond the theorems above (that the numpy code of
    `project_and_remove` / `partial_trace` / `bipartite_partial_transpose` computes the modelled maps, float eigenvalues, purity test,
    the closing `np.allclose` validation) — compared numerically per input; (2) the
